@@ -238,8 +238,20 @@ def check(prop, tier, seed):
             bounded_ev.append({"what": cj["what"], "bound": cj["bound"], "evaluations": cj["evaluations"],
                                "distinct_nontrivial": cj["distinct_nontrivial"], "rule": cj["rule"], "samples": [cj["per_kind"]],
                                "per_kind": cj["per_kind"], "wall_s": 0.0, "failures": cj["n_failures"]})
-            if cj["n_failures"]:
-                checker_failures.append("DFT contract / lemma does not hold on the installed FFT layer: %s" % json.dumps(cj["failures"][:2])[:400])
+            if cj.get("n_definition_failures"):
+                # /repo's FFT layer (bldfm.fft_manager) does not compute the DFT sums the contract of fft2/ifft2
+                # states (independent O(n^2) oracle): a native failing input of the real code for this property
+                mx = "4" if tier == "quick" else "7"
+                code = ("import subprocess, sys\np = subprocess.run([sys.executable, %r, '--max', %r, '--replay'], capture_output=True, text=True)\n"
+                        "print(p.stdout[-1500:])\nraise SystemExit(1 if 'REPLAY-FAIL' in p.stdout else 0)\n"
+                        % (os.path.join(VERIF, "bounded", "dft_conformance.py"), mx))
+                path = write_replay(prop, "fft-layer-is-not-the-DFT-of-the-contract", {
+                    "property": prop, "obligation": "fft_manager.fft2/ifft2:post:result-is-the-DFT-of-the-argument (bounded conformance)",
+                    "kind": "post", "class": "bounded", "native": {"code": code}, "native_status": "fail",
+                    "native_result": json.dumps(cj["failures"][:5])})
+                violations.append(("fft-layer-conformance", path, True))
+            elif cj["n_failures"]:
+                checker_failures.append("DFT lemma does not hold on the installed FFT layer although the definitions do: %s" % json.dumps(cj["failures"][:2])[:400])
         except Exception as e:
             checker_failures.append("dft_conformance did not run: %r" % (e,))
 
@@ -284,14 +296,17 @@ def check(prop, tier, seed):
         #     baseline of obligations discharged on the reference tree (regression).
         premise = str(r.get("backend", "")).startswith(("valueview", "exact")) or o.view == "custom" \
             or o.cls in ("inductive", "premise")
-        inv = o.kind.startswith("inv-")
+        # structural obligations ("the path performs the expected number of opaque transforms"): when they fail the
+        # contract cannot relate this path to the specification at all -- like a refuted invariant, never a
+        # violation without a native failing input
+        inv = o.kind.startswith("inv-") or bool(o.meta.get("structural"))
         payload["class"] = "premise" if premise else o.cls
         if found or (not premise and not inv) or (o.name in baseline and not inv):
             path = write_replay(prop, o.name, payload)
             violations.append((o.name, path, found))
         else:
             undecided.append({"obligation": o.name, "reason": "refuted proof step (%s) without native failing input and not a baseline regression: %s" % (
-                "loop invariant" if inv else "sufficient condition", json.dumps(r.get("value_failure", r.get("model", {})), default=str)[:300])})
+                ("structural premise of the contract" if o.meta.get("structural") else "loop invariant") if inv else "sufficient condition", json.dumps(r.get("value_failure", r.get("model", {})), default=str)[:300])})
 
     for o, r in unknown:
         undecided.append({"obligation": o.name, "reason": "solver: %s" % (r.get("reason") or r["result"])})
